@@ -64,6 +64,21 @@ func main() {
 		def.fn(r)
 		r.Pool.Close()
 		os.Exit(r.Finish())
+	case "overlap":
+		res := &WRes{}
+		for _, k := range []string{"code", "code-oidc", "code-pkce", "refresh", "refresh-oidc", "device", "device-contract", "bearer-jti", "client-assertion-jti"} {
+			for n := 2; n <= 3; n++ {
+				for _, tx := range []bool{false, true} {
+					for _, ord := range overlapOrders(n) {
+						overlapRun(overlapCase{Kind: k, N: n, Order: ord, Tx: tx}, res)
+					}
+				}
+			}
+		}
+		fmt.Println(res.Classes, res.Notes)
+		for _, v := range res.Viol {
+			fmt.Println("VIOL", v.Fingerprint, "|", v.What)
+		}
 	case "trace":
 		// debug: h trace '<famJob json>' prints every step's observation
 		var j famJob
